@@ -226,10 +226,17 @@ Definition intersect_model (A B : list iv) : list iv :=
   filter (fun p => m_intersect_keep (snd p) (fst p)) (zip_with m_intersect_piece stops (tl (map fst all))).
 
 (* ---------- unique_intersect (intervals.py:328-331) ---------- *)
+(* genome_mask[intervals_a].any(axis=-1): a row with bases is kept iff one of its bases is covered; for a row
+   WITHOUT bases (start = stop = p) npstructures' indexing of the run-length mask by the empty range returns the run
+   around p, and the row is kept iff p lies strictly inside a covered run (bases p-1 and p both covered). *)
+Definition unique_keep (m : list bool) (size : Z) (a : iv) : bool :=
+  if fst a =? snd a
+  then (0 <? fst a) && (fst a <? size) && nthd false m (fst a - 1) && nthd false m (fst a)
+  else existsb (fun x => nthd false m x) (span a).
 Definition unique_intersect_model (A B : list iv) (size : Z) : option (list iv) :=
   match mask_model B size with
   | None => None
-  | Some m => Some (filter (fun a => existsb (fun x => nthd false m x) (span a)) A)
+  | Some m => Some (filter (unique_keep m size) A)
   end.
 
 (* ---------- similarity_measures.py ---------- *)
@@ -301,6 +308,39 @@ Definition sort_lex_model := sort_lex_fixed.        (* <- one-line switch when n
 Definition geom_sort_leb_pinned := key2_leb.
 Definition geom_sort_leb_fixed := key3_leb.
 Definition geom_sort_leb := geom_sort_leb_fixed.    (* <- one-line switch when notes/C08.fix-3.diff is committed *)
+
+(* ---------- Geometry routes (genomic_data/geometry.py): the contig is chromosome number r of a genome with
+   chromosome sizes [sizes]; Geometry works in global coordinates (offset of the chromosome added) and slices /
+   shifts back. ---------- *)
+Definition goff (sizes : list Z) (r : Z) : Z := sumZ (firstn (Z.to_nat r) sizes).     (* GlobalOffset: cumulative sizes *)
+Definition gsize (sizes : list Z) (r : Z) : Z := nthd 0 sizes r.
+Definition shift_iv (k : Z) (i : iv) : iv := (fst i + k, snd i + k).
+(* Geometry.get_pileup / get_mask: global array of the whole genome, then the chromosome's slice *)
+Definition geom_pileup_model (sizes : list Z) (r : Z) (I : list iv) : list Z :=
+  let off := goff sizes r in
+  slice off (off + gsize sizes r) (pileup_model (map (shift_iv off) I) (sumZ sizes)).
+Definition geom_mask_model (sizes : list Z) (r : Z) (I : list iv) : option (list bool) :=
+  let off := goff sizes r in
+  match mask_model (map (shift_iv off) I) (sumZ sizes) with
+  | Some m => Some (slice off (off + gsize sizes r) m)
+  | None => None
+  end.
+(* Geometry.merge_intervals: chromosomes moved distance+1 further apart, merged globally, shifted back *)
+Definition geom_merge_model (sizes : list Z) (r d : Z) (I : list iv) : option (list iv) :=
+  let k := goff sizes r + r * (d + 1) in
+  match merge_model d (map (shift_iv k) I) with
+  | Some out => Some (map (shift_iv (- k)) out)
+  | None => None
+  end.
+(* Geometry.jaccard: the two genome-wide masks; intersect / (|a| + |b| - intersect) *)
+Definition geom_jaccard_model (sizes : list Z) (r : Z) (A B : list iv) : option (Z * Z) :=
+  let off := goff sizes r in
+  jaccard_model (map (shift_iv off) A) (map (shift_iv off) B) (sumZ sizes).
+(* Geometry.sort: stable np.lexsort((global stop, global start)) *)
+Definition gkey_leb (sizes : list Z) (a b : tiv) : bool :=
+  let ga := goff sizes (t_tag a) in let gb := goff sizes (t_tag b) in
+  (ga + t_start a <? gb + t_start b) || ((ga + t_start a =? gb + t_start b) && (ga + t_stop a <=? gb + t_stop b)).
+Definition geom_sort_model (sizes : list Z) (I : list tiv) : list tiv := isort (gkey_leb sizes) I.
 
 (* ---------- clip (intervals.py:416-430), extend_to_size (intervals.py:365-392) ---------- *)
 Definition clip_pinned (size : Z) (i : iv) : iv := (Z.max 0 (fst i), Z.min size (snd i)).
